@@ -200,25 +200,96 @@ theorem no_stuck_state {kind : Nat → W.Full.Cmd} (hk : ∀ n, (kind n).handled
   · exact h1
   · exact absurd (hq a.q) (hd.note a ha (Or.inr h1))
 
+/-- **Progress (no deadlock, no stutter-lock), all stages.** The connection actors of the composed
+    model are always enabled while the engine is in `Run` (a retrieval from an empty port or an answer
+    into a full one changes nothing), so `no_stuck_state` alone says nothing there. This does: in
+    every reachable state in which some application thread has not finished, some actor can make a
+    REAL move — a step of an application thread, of `runAsync`, of the engine goroutine, or a
+    connection step that actually takes a request / delivers an answer. -/
+theorem progress {kind : Nat → W.Full.Cmd} (hk : ∀ n, (kind n).handled = true)
+    {caps : W.Full.Caps} (hcap : 0 < caps.gOut) (hin : 0 < caps.gIn) {s : St} (h : Reach kind caps s)
+    (hnf : ¬ K.finished s.k) : ∃ t s', step kind caps s t = some s' ∧ realMove s s' t := by
+  have hd := dinv_reach h
+  by_cases hloop : s.k.e = .loop
+  · by_cases hev : s.k.evt = true
+    · exact ⟨.eng, _, by simp only [step, hloop, hev, and_self, if_true]; rfl, trivial⟩
+    · by_cases hpend : s.core.outb = [] ∧ s.ext = []
+      · -- nothing scheduled, nothing pending: `Run` returns
+        have hev' : s.k.evt = false := by simpa using hev
+        refine ⟨.eng, { s with k := { s.k with e := .afterRun } }, ?_, trivial⟩
+        simp [step, hloop, hev', K.isTickPc, hpend.1, hpend.2, K.step]
+      · by_cases hout : s.core.outb = []
+        · have hext : s.ext ≠ [] := fun hx => hpend ⟨hout, hx⟩
+          by_cases hroom : s.core.inb.length < caps.gIn
+          · -- the GPU side answers its oldest request
+            obtain ⟨x, rest, hx⟩ := List.exists_cons_of_ne_nil hext
+            refine ⟨.env (.answer 0), _, by simp only [step, envOk, hloop, and_self, if_true]; rfl, Or.inr ?_⟩
+            simp [put, W.Full.step, sysOf, hx, hroom, W.Full.deliverG]
+          · -- the port is full: a message waits, so the tick is scheduled or a signal is owed
+            have hne : s.core.inb ≠ [] := by
+              intro hx; rw [hx] at hroom; simp at hroom; omega
+            rcases driver_never_asleep_with_work hk h (Or.inl hne) with h1 | ⟨b, hb, hw⟩ | h1
+            · exact absurd h1 hev
+            · by_cases hr : s.k.r = .idle
+              · obtain ⟨j, hj⟩ := List.mem_iff_getElem?.mp hb
+                have hm := K.will_moves s.k j b hj hr hw
+                cases hs : step kind caps s (.app j) with
+                | none =>
+                  simp only [step, hj, Option.map_eq_none_iff] at hs
+                  exact absurd hs hm
+                | some s' => exact ⟨.app j, s', hs, trivial⟩
+              · cases hs : step kind caps s .async with
+                | none =>
+                  exfalso
+                  simp only [step, Option.map_eq_none_iff] at hs
+                  cases hr' : s.k.r with
+                  | idle => exact hr hr'
+                  | tick => simp [K.step, hr', hloop, K.isTickPc] at hs
+                  | chkFlag => cases hrn : s.k.running <;> simp [K.step, hr', hrn] at hs
+                | some s' => exact ⟨.async, s', hs, trivial⟩
+            · cases hs : step kind caps s .async with
+              | none =>
+                exfalso
+                simp only [step, Option.map_eq_none_iff] at hs
+                simp [K.step, h1, hloop, K.isTickPc] at hs
+              | some s' => exact ⟨.async, s', hs, trivial⟩
+        · -- the connection takes the request at the head of the port
+          obtain ⟨x, rest, hx⟩ := List.exists_cons_of_ne_nil hout
+          refine ⟨.env .retrieveG, _, by simp only [step, envOk, hloop, and_self, if_true]; rfl, Or.inl ?_⟩
+          simp [put, W.Full.step, sysOf, hx]
+  · -- outside `Run` no connection acts: the move `no_stuck_state` guarantees is a real one
+    have hns : ¬ stuck kind caps s := fun hst => hnf (no_stuck_state hk hcap h hst)
+    have : ∃ t, step kind caps s t ≠ none := Classical.byContradiction fun hn =>
+      hns fun t => Classical.byContradiction fun ht => hn ⟨t, ht⟩
+    obtain ⟨t, ht⟩ := this
+    cases hs : step kind caps s t with
+    | none => exact absurd hs ht
+    | some s' =>
+      refine ⟨t, s', hs, ?_⟩
+      cases t with
+      | env ev => simp [step, hloop] at hs
+      | _ => trivial
+
 /-- **End to end, one application thread, ALL stages.** One application thread with ANY script of
     `Enqueue(q)` / `DrainCommandQueue(q)` calls that ends with a drain, commands of any handled kind
     (Noop, kernel, H2D/D2H copy, magic copy, flush), any configuration, any interleaving `ts` of the
     thread, `runAsync`, the engine goroutine, the GPU side and the MMU side. In the state reached:
     (W) if `Driver.Tick` has any of the seven kinds of work, its tick event is scheduled AND will be
     handled by the engine goroutine, or the thread still owes its signal, or `runAsync` is about to
-    call `TickLater`; (K) if no actor can move, every `DrainCommandQueue` of the script has returned;
+    call `TickLater`; (K) if no actor can move, every `DrainCommandQueue` of the script has returned, and while one has not, some actor can make a real (non-stuttering) move;
     a returning drain found the component's queue empty (`drain_returns_only_when_empty`). No
     hypothesis links the wake model and the protocol model: `owed` is `owed_implies_signal_pending`. -/
 theorem end_to_end_one_thread (cfg : W.Full.Cfg) (script : List K.Op) (hok : K.okScript script = true)
     (kind : Nat → W.Full.Cmd) (hk : ∀ n, (kind n).handled = true) (caps : W.Full.Caps) (hcap : 0 < caps.gOut)
-    (ts : List Th) (s : St) (hrun : runSched kind caps (init cfg [script]) ts = some s) :
+    (hin : 0 < caps.gIn) (ts : List Th) (s : St) (hrun : runSched kind caps (init cfg [script]) ts = some s) :
     (s.owed = true → (∃ a ∈ s.k.apps, K.willSignal a) ∨ s.k.r = .tick) ∧
     (W.Full.work caps s.core →
       (s.k.evt = true ∧ K.willLook s.k) ∨ (∃ a ∈ s.k.apps, K.willSignal a) ∨ s.k.r = .tick) ∧
-    (stuck kind caps s → K.finished s.k) := by
+    (stuck kind caps s → K.finished s.k) ∧
+    (¬ K.finished s.k → ∃ t s', step kind caps s t = some s' ∧ realMove s s' t) := by
   have hr : Reach kind caps s :=
     reach_of_runSched ts _ s (Reach.init cfg [script] (by simpa using hok)) hrun
-  exact ⟨owed_implies_signal_pending hr, work_is_served hk hr, no_stuck_state hk hcap hr⟩
+  exact ⟨owed_implies_signal_pending hr, work_is_served hk hr, no_stuck_state hk hcap hr, progress hk hcap hin hr⟩
 
 /-! non-vacuity: one GPU, one queue, one thread: `EnqueueMemCopyH2D` (one page piece, delay 1); `DrainCommandQueue` -/
 def cfg1 : W.Full.Cfg := { nGpus := 1, ctxs := [0], cycH2D := 1 }
